@@ -99,8 +99,10 @@ def execute(ctx, case):
     C(abs(nbp - round(nbp)) <= 1e-6, "from_metrics: n*p_pos is not an integer", "data-fm-int", **wm)
     nbp = round(nbp)
     nbn = d2.n - nbp
-    C(fs - fnr * (1 + 1e-9) < nbp * fnr <= fs * (1 + 1e-12), "from_metrics: positives do not give fnr_support false negatives", "data-fm-pos", **wm, nb_pos=nbp)
-    C(fps - fpr * (1 + 1e-9) < nbn * fpr <= fps * (1 + 1e-12), "from_metrics: negatives do not give fpr_support false positives", "data-fm-neg", **wm, nb_neg=nbn)
+    # implied sizes: support / rate, rounded down "to floating-point accuracy" (a quotient within 1e-9 of an integer is that integer)
+    qp, qn = fs / fnr, fps / fpr
+    C(nbp in (math.floor(qp), math.floor(qp + 1e-9 * max(qp, 1.0))), "from_metrics: number of positives is not fnr_support / fnr", "data-fm-pos", **wm, nb_pos=nbp, quotient=qp)
+    C(nbn in (math.floor(qn), math.floor(qn + 1e-9 * max(qn, 1.0))), "from_metrics: number of negatives is not fpr_support / fpr", "data-fm-neg", **wm, nb_neg=nbn, quotient=qn)
     C(str(getattr(d2.score_class, "value", d2.score_class)) == "pos" and d2.sigma_pos == sp2 and d2.sigma_neg == sn2, "from_metrics: wrong score_class or sigmas", "data-fm-cfg")
     smp = d2.sample(rng=np.random.default_rng(case["_seed"]))
     smp_b = d2.sample(rng=np.random.default_rng(case["_seed"]))
